@@ -38,6 +38,7 @@ type Case struct {
 	FailAt int // -1: no fault; otherwise input FailAt%k is truncated inside record FailRec
 	FailRec int
 	RD     int
+	Decoy  bool // pass a less function although the declared order is not "unknown": it must be ignored (documented)
 }
 
 var knownName = h.KnownRegion("C18", "coordinate-by-name")
@@ -80,6 +81,7 @@ func draw(t *rapid.T) Case {
 		c.FailRec = rapid.IntRange(0, 7).Draw(t, "failRec")
 	}
 	c.RD = rapid.SampledFrom([]int{1, 2}).Draw(t, "rd")
+	c.Decoy = rapid.Bool().Draw(t, "decoyLess")
 	return c
 }
 
@@ -254,6 +256,7 @@ func run(c Case, rec *h.Rec) {
 	}
 	rec.Class(c.Order)
 	rec.ClassIf(empty, "has_empty_input")
+	rec.ClassIf(c.Decoy && c.Order != "unknown_nil" && c.Order != "unknown_custom", "less_given_but_order_declared")
 	rec.ClassIf(failing >= 0, "failing_input")
 	rec.ClassIf(failRec > 0, "failing_mid_stream")
 	rec.ClassIf(failRec > 0 && len(c.Inputs) == 1, "failing_mid_stream_single_input")
@@ -278,6 +281,9 @@ func mergeAndCheck(c Case, streams [][]byte, failing int, want map[struct{ in, o
 	var lessFn func(a, b *sam.Record) bool
 	if c.Order == "unknown_custom" {
 		lessFn = func(a, b *sam.Record) bool { return a.MapQ < b.MapQ }
+	} else if c.Decoy && c.Order != "unknown_nil" {
+		// "For all sort orders other than sam.Unknown, the less parameter is ignored."
+		lessFn = func(a, b *sam.Record) bool { return a.MapQ > b.MapQ || a.MapQ == b.MapQ && a.Name > b.Name }
 	}
 	m, err := bam.NewMerger(lessFn, readers...)
 	if err != nil {
